@@ -105,6 +105,48 @@ func vfC03AuthGuard(v int) (msg string) {
 	return ""
 }
 
+// vfC03Register runs controlConn.registerEvents for a configuration.  The logical request is
+// what the ClusterConfig documentation says: status events (STATUS_CHANGE) unless
+// DisableNodeStatusEvents, topology events (TOPOLOGY_CHANGE) unless DisableTopologyEvents, schema
+// events (SCHEMA_CHANGE) unless DisableSchemaEvents.
+func vfC03Register(c *vfC03Case, noStatus, noTopology, noSchema bool) (ok bool) {
+	defer func() {
+		if r := recover(); r != nil {
+			ok = false
+		}
+	}()
+	if !noTopology {
+		c.Slist = append(c.Slist, vfC03I([]byte("TOPOLOGY_CHANGE")))
+	}
+	if !noStatus {
+		c.Slist = append(c.Slist, vfC03I([]byte("STATUS_CHANGE")))
+	}
+	if !noSchema {
+		c.Slist = append(c.Slist, vfC03I([]byte("SCHEMA_CHANGE")))
+	}
+	l := vfC03NewLink(c.V, c.Comp, 0)
+	// registerEvents waits on its own context: end the wait by closing the connection's context
+	l.w.cancel = l.conn.cancel
+	sess := &Session{}
+	sess.cfg.Events.DisableNodeStatusEvents = noStatus
+	sess.cfg.Events.DisableTopologyEvents = noTopology
+	sess.cfg.Events.DisableSchemaEvents = noSchema
+	err := (&controlConn{session: sess}).registerEvents(l.conn)
+	fresh := l.fresh()
+	if l.w.wrote {
+		if len(fresh) != 1 {
+			return false
+		}
+		c.Stream, c.Bytes = fresh[0], vfC03I(l.w.got)
+		return true
+	}
+	l.conn.cancel()
+	if err != nil {
+		c.Err = "error: " + err.Error()
+	}
+	return true
+}
+
 // vfC03ViaConn sends the logical request through the connection-level code.  ok=false when the
 // stub could not carry the request (the driver went into parts the literal does not have).
 func vfC03ViaConn(c *vfC03Case, l *vfC03Link) (out []byte, errText string, ok bool) {
@@ -189,6 +231,25 @@ func TestVfC03ConnPath(t *testing.T) {
 	defer o.close()
 	g := &vfC03Gen{r: rand.New(rand.NewSource(seed ^ 0x5eed)), id: 2000000}
 	skipped := 0
+	// REGISTER as the control connection sends it: every combination of the three
+	// ClusterConfig.Events.Disable* switches x protocol version, through the real
+	// controlConn.registerEvents and Conn.exec
+	for v := 1; v <= 5; v++ {
+		for m := 0; m < 8; m++ {
+			c := &vfC03Case{Src: "conn", V: v, Kind: "REGISTER", Comp: m % 2}
+			g.id++
+			c.ID = g.id
+			if !vfC03Register(c, m&1 != 0, m&2 != 0, m&4 != 0) {
+				skipped++
+				continue
+			}
+			vfC03Norm(c)
+			if len(c.Slist) == 0 && len(c.Bytes) == 0 && c.Err == "" {
+				continue // nothing to register, nothing sent: nothing to judge
+			}
+			o.put(t, c)
+		}
+	}
 	var link *vfC03Link
 	left := 0
 	for i := 0; i < n; i++ {
